@@ -29,7 +29,7 @@ def run(pid, tier, seed, chk):
             ok, msg = chk.regenerate()
             if not ok: broken.append('translator: ' + msg)
             dok, dlog = chk.build_driver()
-            obligations, discharged, details, pb = chk.audit(pid, rundir)
+            obligations, discharged, details, pb = chk.audit(pid, rundir, tier)
             broken += pb
         with chk.Lock('harness'):
             cdrive, err = chk.build_harness()
